@@ -25,7 +25,8 @@ struct RecState {
   std::vector<double> x, pi, piq, obj;
   bool have_varstt = false, have_constt = false, have_iisvar = false, have_iiscon = false;
   std::vector<int> varstt, constt, iisvar, iiscon;
-  std::map<int, std::vector<int> > iiscon_g;   // script `iiscong <group> v...`: IIS statuses of the constraints of another group (C04)
+  std::map<int, std::vector<int> > iiscon_g;
+  std::map<std::string, std::vector<double> > sens;   // script `sens_<field> v...` (12 fields of SensRangesPresolved), `ray v...`, `dray v...` (C04)   // script `iiscong <group> v...`: IIS statuses of the constraints of another group (C04)
   /// C04: JSON of range constraint i (quad?) of the converter, installed by CreateRecModelMgr
   std::function<std::string(bool, int)> rangecon;
   bool graph_dumped = false;
